@@ -130,3 +130,115 @@ Proof.
   { eapply Permutation_in; [apply (sweep_idx_perm n ds Hn)|]. apply nth_In. now rewrite sweep_idx_length. }
   apply in_seq in H. lia.
 Qed.
+
+(** ** which levels end a sweep with another occupant (used for [reset_after_swap], C19) *)
+(** decisions given as a function of the colder slot of each pair *)
+Fixpoint decs (dec : nat -> bool) (tk : nat) : list bool :=
+  match tk with O => [] | S tj => dec tj :: decs dec tj end.
+
+Lemma decs_ext f g tk : (forall t, t < tk -> f t = g t) -> decs f tk = decs g tk.
+Proof. induction tk as [|tj IH]; intros H; cbn; auto. rewrite H by lia. f_equal. apply IH. intros; apply H; lia. Qed.
+
+Lemma ds_as_decs tk ds : length ds = tk -> ds = decs (fun tj => nth (tk - 1 - tj) ds false) tk.
+Proof.
+  revert ds; induction tk as [|tj IH]; intros [|d ds] H; cbn in H; try lia; auto.
+  cbn [decs]. replace (S tj - 1 - tj) with 0 by lia. cbn [nth]. f_equal.
+  rewrite (IH ds) at 1 by lia. apply decs_ext. intros t Ht.
+  replace (S tj - 1 - t) with (S (tj - 1 - t)) by lia. reflexivity.
+Qed.
+
+Lemma SweepInv_step n tj c d : SweepInv n (S tj) c -> SweepInv n tj (if d : bool then exch c tj else c).
+Proof.
+  intros (Hl & Hk & Hlow & Hat & Hhi). destruct d.
+  - assert (Hx : S tj < length c) by lia.
+    split; [now rewrite exch_length|]. split; [lia|]. split; [|split].
+    + intros u Hu. rewrite exch_nth by exact Hx.
+      destruct (Nat.eqb_spec u tj), (Nat.eqb_spec u (S tj)); try lia. apply Hlow. lia.
+    + rewrite exch_nth by exact Hx. rewrite Nat.eqb_refl. lia.
+    + intros u Hu Hu'. rewrite exch_nth by exact Hx.
+      destruct (Nat.eqb_spec u tj), (Nat.eqb_spec u (S tj)); try lia.
+      * subst u. rewrite (Hlow tj) by lia. lia.
+      * apply Hhi; lia.
+  - split; [exact Hl|]. split; [lia|]. split; [|split].
+    + intros u Hu. apply Hlow. lia.
+    + rewrite (Hlow tj) by lia. lia.
+    + intros u Hu Hu'. destruct (Nat.eq_dec u (S tj)) as [->|]; [lia|apply Hhi; lia].
+Qed.
+
+(** which slots end up with another occupant: exactly those next to an accepted exchange *)
+Lemma sweep_spec_moved n dec tk c : SweepInv n tk c -> forall t, t < n ->
+  (nth t (sweep_spec tk c (decs dec tk)) 0 <> t <->
+   nth t c 0 <> t \/ (t < tk /\ dec t = true) \/ (0 < t /\ t <= tk /\ dec (t - 1) = true)).
+Proof.
+  revert c; induction tk as [|tj IH]; intros c HI t Ht.
+  - cbn. split; [auto|]. intros [H|[[H _]|(H1 & H2 & _)]]; [exact H|lia|lia].
+  - cbn [decs sweep_spec].
+    pose proof (SweepInv_step n tj c (dec tj) HI) as HI'.
+    rewrite (IH _ HI' t Ht). clear IH.
+    destruct HI as (Hl & Hk & Hlow & Hat & Hhi).
+    assert (Hx : S tj < length c) by lia.
+    assert (E : nth t (if dec tj then exch c tj else c) 0 =
+                if dec tj then (if Nat.eqb t tj then nth (S tj) c 0 else if Nat.eqb t (S tj) then nth tj c 0 else nth t c 0)
+                else nth t c 0).
+    { destruct (dec tj); [apply exch_nth; exact Hx|reflexivity]. }
+    rewrite E. clear E.
+    pose proof (Hlow tj ltac:(lia)) as Htj.
+    destruct (Nat.eqb_spec t tj) as [->|N1].
+    + (* t = tj *)
+      destruct (dec tj) eqn:D.
+      * split; intros _; [right; left; split; [lia|reflexivity]|left; lia].
+      * rewrite Htj. split.
+        -- intros [H|[[H _]|(H1 & H2 & H3)]]; [congruence|lia|]. right; right. repeat split; try lia. exact H3.
+        -- intros [H|[[_ H]|(H1 & H2 & H3)]]; [congruence|congruence|]. right; right. repeat split; try lia. exact H3.
+    + destruct (Nat.eqb_spec t (S tj)) as [->|N2].
+      * (* t = S tj *)
+        replace (S tj - 1) with tj by lia.
+        destruct (dec tj) eqn:D.
+        -- rewrite Htj. split; intros _; [right; right; repeat split; lia|left; lia].
+        -- split.
+           ++ intros [H|[[H _]|(H1 & H2 & _)]]; [left; exact H|lia|lia].
+           ++ intros [H|[[H _]|(_ & _ & H)]]; [left; exact H|lia|congruence].
+      * (* elsewhere *)
+        assert (E : (if dec tj then nth t c 0 else nth t c 0) = nth t c 0) by (destruct (dec tj); reflexivity).
+        rewrite E. clear E.
+        split.
+        -- intros [H|[[H1 H2]|(H1 & H2 & H3)]]; [left; exact H|right; left; split; [lia|exact H2]|right; right; repeat split; try lia; exact H3].
+        -- intros [H|[[H1 H2]|(H1 & H2 & H3)]]; [left; exact H|right; left; split; [lia|exact H2]|right; right; repeat split; try lia; exact H3].
+Qed.
+
+Theorem sweep_idx_moved n ds t : 0 < n -> t < n -> length ds = n - 1 ->
+  let idx := sweep_idx (n - 1) (seq 0 n) ds in
+  let dec tj := nth (n - 2 - tj) ds false in      (* the decision taken for the pair (tj, tj+1) *)
+  nth t idx 0 <> t <-> (S t < n /\ dec t = true) \/ (0 < t /\ dec (t - 1) = true).
+Proof.
+  intros Hn Ht Hds idx dec. unfold idx. rewrite sweep_idx_spec.
+  rewrite (ds_as_decs (n - 1) ds Hds).
+  assert (HI : SweepInv n (n - 1) (seq 0 n)).
+  { repeat split; [apply seq_length|lia| |rewrite seq_nth' by lia; lia|intros; lia].
+    intros u Hu. apply seq_nth'. lia. }
+  rewrite (sweep_spec_moved n _ (n - 1) (seq 0 n) HI t Ht).
+  rewrite seq_nth' by exact Ht.
+  assert (Ed : forall x, nth (n - 1 - 1 - x) ds false = dec x)
+    by (intros x; unfold dec; f_equal; lia).
+  rewrite !Ed.
+  split.
+  - intros [H|[[H1 H2]|(H1 & H2 & H3)]]; [congruence|left; split; [lia|exact H2]|right; split; [lia|exact H3]].
+  - intros [[H1 H2]|[H1 H2]]; [right; left; split; [lia|exact H2]|right; right; repeat split; try lia; exact H2].
+Qed.
+
+(** the levels reset after a sweep are exactly the levels next to an accepted exchange *)
+Theorem reset_levels_spec n ds t : 0 < n -> length ds = n - 1 ->
+  let idx := sweep_idx (n - 1) (seq 0 n) ds in
+  let dec tj := nth (n - 2 - tj) ds false in
+  In t (reset_levels idx) <-> t < n /\ ((S t < n /\ dec t = true) \/ (0 < t /\ dec (t - 1) = true)).
+Proof.
+  intros Hn Hds idx dec. unfold reset_levels. rewrite filter_In, in_seq.
+  unfold idx at 1. rewrite sweep_idx_length.
+  split.
+  - intros [[_ Ht] Hneq]. cbn in Ht. split; [exact Ht|].
+    apply (sweep_idx_moved n ds t Hn Ht Hds).
+    apply Bool.negb_true_iff in Hneq. apply Nat.eqb_neq in Hneq. fold idx. congruence.
+  - intros [Ht H]. split; [lia|].
+    apply (sweep_idx_moved n ds t Hn Ht Hds) in H. fold idx in H.
+    apply Bool.negb_true_iff. apply Nat.eqb_neq. congruence.
+Qed.
